@@ -3,7 +3,7 @@ CONSTANTS U <- U_file
  Datas <- Datas_1
  MaxLen = 2
  Depth = 0
- OpsOn = {"open", "write", "seek", "readall", "close", "get", "unlink"}
+ OpsOn = {"open", "write", "seek", "readall", "read", "size", "close", "get", "unlink"}
 INVARIANT TypeOK
 PROPERTIES FailUnchanged CreateIff UnlinkExact ReadBack
 CONSTRAINT Bound
